@@ -151,6 +151,168 @@ def block_cases(rng, tier="quick", cap=None, both_regimes_upto=2049):
     return out
 
 
+# --------------------------------------------------------------------------
+# parameter values at special points, magnitudes of L, presentations of the arguments (round 6)
+# --------------------------------------------------------------------------
+N_SPECIAL = (2.0, 2.5, 3.0, 3.5, 4.0, 4.5, 5.0)          # range ends, integers, half-integers (n - 1 odd / even integer part)
+P_SPECIAL = (1.0, 1.5, 2.0)
+
+
+def special_params(rng, nexp=None, p=None):
+    """exponents on the grid of integers / half-integers / range ends, the other parameters at range ends or inside"""
+    return dict(p=float(p if p is not None else P_SPECIAL[int(rng.integers(3))]),
+                nexp=float(nexp if nexp is not None else N_SPECIAL[int(rng.integers(len(N_SPECIAL)))]),
+                lam=float((0.0, 10.0, rng.uniform(0, 10))[int(rng.integers(3))]),
+                M=float((200.0, 1.0, rng.uniform(1, 200))[int(rng.integers(3))]),
+                phi=float((1.0, rng.uniform(0.05, 1.0))[int(rng.integers(2))]))
+
+
+def param_grid_cases(seed, tier="quick"):
+    """every deformation exponent of N_SPECIAL x every valid (phase, fabric) pair x both regimes (stress exponent rotating over
+    P_SPECIAL), 2-5 Haar grains with several active systems of either sign, straining flows: an exponent-dependent shortcut
+    (integer / half-integer fast paths of the power law) is invisible to uniform draws from [2, 5]"""
+    rng = np.random.default_rng([int(seed), 0xC04E])
+    out = []
+    for rep in range(1 if tier == "quick" else 4):
+        for i, nexp in enumerate(N_SPECIAL):
+            for j, pair in enumerate(VALID_PAIRS):
+                c = case(rng, n_grains=int(rng.integers(2, 6)), pair=pair, regime=(4, 6)[(i + j + rep) % 2], okind="haar",
+                         lkind=("general", "simple", "trace")[int(rng.integers(3))], fkind=("dirichlet", "uniform")[int(rng.integers(2))])
+                c.update(special_params(rng, nexp=nexp, p=P_SPECIAL[(i + j) % 3]))
+                c["kinds"] = tuple(c["kinds"]) + (f"param_grid:n={nexp:g}",)
+                out.append(c)
+    return out
+
+
+MAGNITUDES = (1e-15, 1e-14, 1e-13, 1e-12, 1e-9, 1e-6, 1e-3, 1e3, 1e6, 1e9, 1e12)
+
+
+def magnitude_cases(seed, tier="quick"):
+    """velocity gradient and strain rate of magnitude 1e-15 .. 1e12 handed DIRECTLY to core.derivatives (the public function does
+    not require them to be non-dimensional): absolute cut-offs on the outputs or inputs show only here.  Marked `relscale`:
+    model and implementation are compared, and skewness is judged, RELATIVE to the size of the returned block."""
+    rng = np.random.default_rng([int(seed), 0xC03E])
+    out = []
+    for rep in range(1 if tier == "quick" else 4):
+        for i, mag in enumerate(MAGNITUDES):
+            for pair in ((0, int(rng.integers(5))), (1, 5)):
+                c = case(rng, n_grains=int(rng.integers(1, 6)), pair=pair, regime=(4, 6)[(i + rep) % 2], okind="haar",
+                         lkind=L_KINDS[int(rng.integers(len(L_KINDS)))], fkind=("dirichlet", "uniform")[int(rng.integers(2))])
+                c["L"], c["D"] = c["L"] * mag, c["D"] * mag
+                c["M"] = max(c["M"], 1.0)
+                c["relscale"] = True
+                c["kinds"] = tuple(c["kinds"]) + (f"magnitude:{mag:g}",)
+                out.append(c)
+    return out
+
+
+SPELLINGS = ("enum", "np.int64", "np.uint8", "np.int32", "mixed")
+
+
+def spell_ids(kind, regime, phase, fabric):
+    """the three ordinals in another legal spelling (enum members need valid ordinals)"""
+    import pydrex
+    if kind == "enum":
+        return pydrex.DeformationRegime(regime), pydrex.MineralPhase(phase), pydrex.MineralFabric(fabric)
+    if kind == "mixed":
+        return pydrex.DeformationRegime(regime), int(phase), np.uint8(fabric)
+    if kind.startswith("np."):
+        t = getattr(np, kind[3:])
+        return t(regime), t(phase), t(fabric)
+    return int(regime), int(phase), int(fabric)
+
+
+LAYOUTS = ("O:fortran", "O:strided", "O:readonly", "L:fortran", "L:readonly", "D:strided", "f:strided", "f:readonly", "S:fortran")
+
+
+def relayout(a, how):
+    """the same values in another memory presentation"""
+    a = np.asarray(a, dtype=float)
+    if how == "fortran":
+        return np.asfortranarray(a) if a.ndim > 1 else a
+    if how == "strided":
+        big = np.zeros(a.shape[:-1] + (2 * a.shape[-1],))
+        v = big[..., ::2]
+        v[...] = a
+        return v
+    if how == "readonly":
+        b = a.copy()
+        b.setflags(write=False)
+        return b
+    raise ValueError(how)
+
+
+def call_presented(core, c, spelling="int", layout=None, keyword=False):
+    """derivatives on the SAME values with the ordinals spelled differently, one array argument in another memory layout,
+    positional or keyword arguments"""
+    reg, ph, fa = spell_ids(spelling, c["regime"], c["phase"], c["fabric"])
+    arr = dict(O=np.ascontiguousarray(c["O"], dtype=float), f=np.ascontiguousarray(c["f"], dtype=float),
+               D=np.ascontiguousarray(c["D"], dtype=float), L=np.ascontiguousarray(c["L"], dtype=float),
+               S=np.ascontiguousarray(c["S"], dtype=float))
+    if layout:
+        k, how = layout.split(":")
+        arr[k] = relayout(arr[k], how)
+    if keyword:
+        return core.derivatives(regime=reg, phase=ph, fabric=fa, n_grains=c["ng"], orientations=arr["O"], fractions=arr["f"],
+                                strain_rate=arr["D"], velocity_gradient=arr["L"], deformation_gradient_spin=arr["S"],
+                                stress_exponent=c["p"], deformation_exponent=c["nexp"], nucleation_efficiency=c["lam"],
+                                gbm_mobility=c["M"], volume_fraction=c["phi"])
+    return core.derivatives(reg, ph, fa, c["ng"], arr["O"], arr["f"], arr["D"], arr["L"], arr["S"],
+                            c["p"], c["nexp"], c["lam"], c["M"], c["phi"])
+
+
+def presentation_plan(seed, tier="quick"):
+    """(case, spelling, layout, keyword): which presentations a run tries.  Every numba specialisation costs 2-6 s of
+    compilation per process, so the quick tier tries each spelling / layout once and the thorough tier all of them on every case."""
+    rng = np.random.default_rng([int(seed), 0xC02E])
+    cases = []
+    for j, pair in enumerate(VALID_PAIRS):
+        for regime in (4, 6):
+            c = case(rng, n_grains=int(rng.integers(2, 7)), pair=pair, regime=regime, okind="haar",
+                     lkind=("general", "simple", "trace")[int(rng.integers(3))], fkind="dirichlet")
+            c["M"] = max(c["M"], 1.0)
+            c["kinds"] = tuple(c["kinds"]) + ("presentation",)
+            cases.append(c)
+    for regime in (0, 7, 1):         # the regimes without migration, valid spellings only
+        c = case(rng, n_grains=3, pair=VALID_PAIRS[int(rng.integers(6))], regime=regime, okind="haar", lkind="general", fkind="dirichlet")
+        c["kinds"] = tuple(c["kinds"]) + ("presentation",)
+        cases.append(c)
+    spell_q = ("enum", "np.int64", "np.uint8", "mixed")
+    lay_q = ("O:fortran", "O:strided", "L:fortran", "f:strided", "O:readonly")
+    plan = []
+    for i, c in enumerate(cases):
+        for sp in (SPELLINGS if tier != "quick" else spell_q):
+            plan.append((c, sp, None, bool((i + len(plan)) % 2)))
+        lays = LAYOUTS if tier != "quick" else (lay_q[i % len(lay_q)],)
+        for lay in lays:
+            plan.append((c, "int", lay, False))
+    return plan
+
+
+def zero_invariant_dispatch_cases(rng):
+    """every (regime, phase, fabric) of the dispatch box on inputs whose slip invariants ALL vanish exactly: axis-aligned grains
+    with a strain rate that is diagonal in the same frame, and an exactly zero strain rate (rigid rotation / rest).  A validation
+    that sits behind an early exit for 'nothing can slip' is skipped exactly here."""
+    cases = []
+    for regime in range(-2, 11):
+        for phase in range(0, 3):
+            for fabric in range(0, 7):
+                for kind in ("aligned_diagonal", "zero_strain_rate"):
+                    c = case(rng, n_grains=2, pair=(phase, fabric), regime=regime, okind="aligned", lkind="pure", fkind="uniform")
+                    if kind == "aligned_diagonal":
+                        d = rng.normal(size=3)
+                        d -= d.mean()
+                        c["D"] = np.diag(d / np.abs(d).max())
+                        c["L"] = c["D"].copy()
+                    else:
+                        w = rng.normal(size=3)
+                        c["D"] = np.zeros((3, 3))
+                        c["L"] = np.array([[0.0, -w[2], w[1]], [w[2], 0.0, -w[0]], [-w[1], w[0], 0.0]])
+                    c["kinds"] = ("aligned", kind, "uniform")
+                    cases.append(c)
+    return cases
+
+
 def flat_inputs(c):
     return (list(c["O"].reshape(-1)) + list(c["f"]) + list(c["D"].reshape(-1))
             + list(c["L"].reshape(-1)) + list(c["S"].reshape(-1))
@@ -201,7 +363,9 @@ def tie_class(c, rel=1e-9):
     gaps = np.diff(s, axis=1)
     scale = np.maximum(s[:, 1:], 1e-300)
     tie = (gaps / scale < rel) & (s[:, 1:] > 0) & (gaps > 0)
-    tiny = (act > 0) & (act < 1e-12)
+    # rounding-level activities where exact arithmetic gives 0 (olivine has no absolute threshold: relative to the size of D,
+    # which is 1 for non-dimensional inputs)
+    tiny = (act > 0) & (act < 1e-12 * max(float(np.abs(c["D"]).max()), 1e-300))
     if bool(tie[:, 0].any() or tiny.any()):
         return "discontinuous"
     return "continuous" if bool(tie[:, 1:].any()) else "none"
